@@ -19,6 +19,7 @@ def run(res):
     if res.broken:
         n = max(n, 1500)      # failing-input search on the implementation
     pc.pool_check(res, 'C04', n, focus=FOCUS)
+    pc.real_scenarios(res, 'C04', [dict(kind='worker_lost', sig=9), dict(kind='worker_lost', sig=11)] if res.tier == 'quick' else [dict(kind='worker_lost', sig=s) for s in (9, 11, 6, 15, 4, 8)])
     res.assumptions += pc_assumptions()
 
 
